@@ -145,7 +145,7 @@ def convert_frozen_orbitals(sec_mol, frozen_orbitals):
 
         if n_active_electrons[0] + n_active_electrons[1] == 0:
             raise ValueError("There are no active electrons.")
-        if (n_active_electrons[0] == 2*n_active_mos[0]) and (n_active_electrons[1] == 2*n_active_mos[1]):
+        if (n_active_electrons[0] == n_active_mos[0]) and (n_active_electrons[1] == n_active_mos[1]):
             raise ValueError("All active orbitals are fully occupied.")
     else:
         occupied = [i for i in range(sec_mol.n_mos) if sec_mol.mo_occ[i] > 0.]
